@@ -34,13 +34,13 @@ LEVEL_TEXT = (
 LEVEL_NOTE = "Trusted: simkit.readout (public APIs + read-only queue peek + sqlite_master row counts). Injectivity and SQL-safety of the naming scheme over all strings is sampled, not proved."
 MINIMIZE = None
 RULE = (
-    "one run = 2-3 adversarial ids (incl. ids equal to another id's bare or component storage prefix) x 15-50 operations (submit, run, event, store, purge-broker/orchestrator/state/trigger/client-data/app); "
+    "one run = 2-3 adversarial ids (incl. ids equal to another id's bare or component storage prefix) x local LRU size {1, 2, 1024} x 15-50 operations (submit, run, event, store of unique or app-shared content, purge-broker/orchestrator/state/trigger/client-data/app); "
     "non-trivial = at least one purge was executed while another app held data; distinct = hash of ids + op sequence."
 )
 ASSUMPTIONS = ["'unchanged' is judged on the read-out of simkit.readout.snapshot plus per-table row counts; monitor-side caches are not part of it"]
 REAL = ["sqlite_utils.sanitize_table_prefix / TableNames / delete_tables_with_prefix", "all SQLite components", "all in-memory components", "app.purge"]
 STUBBED = ["clock", "uuid4"]
-PROBES = ["purge_with_foreign_data", "prefix_shaped_id", "case_variant_pair", "punctuation_variant_pair", "sql_metacharacters"]
+PROBES = ["purge_with_foreign_data", "prefix_shaped_id", "case_variant_pair", "punctuation_variant_pair", "sql_metacharacters", "same_content_stored"]
 
 
 def plan(tier: str) -> list[dict]:
@@ -112,11 +112,13 @@ def run(seed: int, params: dict, replay: dict | None = None) -> dict:
     try:
         rng = sim.rng_work
         ids = gen_ids(rng, stats)
+        # a small local LRU makes reads go to the stored copy (a large one hides whatever happens to it)
+        lru = rng.choice([1, 1, 2, 1024])
         ctx = RunnerContext(runner_cls="SimRunner", runner_id="r1")
         tasks = []
         for app_id in ids:
             try:
-                app = apps_mod.make_app(stack, app_id=app_id, db_path=db, min_size_to_cache=64)
+                app = apps_mod.make_app(stack, app_id=app_id, db_path=db, min_size_to_cache=64, local_cache_size=lru)
                 apps_mod.instantiate_all(app)
             except Exception as e:  # noqa: BLE001
                 viol.append({"signature": f"C17/{stack}/cannot-create-app/{type(e).__name__}", "message": f"app id {app_id!r}: {type(e).__name__}: {e}"})
@@ -158,7 +160,11 @@ def run(seed: int, params: dict, replay: dict | None = None) -> dict:
                     app.trigger.emit_event("evt", {"x": step})
                     app.trigger.trigger_loop_iteration()
                 elif op == "store":
-                    keys[a].append(app.client_data_store.serialize("D" * 100 + str(step)))
+                    # half of the stored values are content another app may store as well (equal content = equal key)
+                    shared = rng.random() < 0.5
+                    if shared:
+                        stats["probe.same_content_stored"] = stats.get("probe.same_content_stored", 0) + 1
+                    keys[a].append(app.client_data_store.serialize("D" * 100 + (f"shared{rng.randrange(2)}" if shared else str(step))))
                 else:
                     if any(known[j] for j in before):
                         purged_with_foreign = True
